@@ -180,6 +180,13 @@ def imp_case(draw, tier='quick'):
         deck['imp_cards'] = {}
         for p in parts:
             col = [vals[q][p] for q in range(n)]
+            if mode == 'mix':
+                # the data card has an entry for every cell; where the cell
+                # card carries IMP keywords these win, whatever the entry says
+                for q in range(n):
+                    if has_kw[q] and draw(st.booleans()):
+                        col[q] = float(draw(st.sampled_from([0, 0, 1, 2])))
+                        labels.add('mix:data-entry-differs-from-keyword')
             if draw(st.booleans()):
                 toks, used = draw(shorthand(col))
                 used_short |= used
